@@ -1,8 +1,7 @@
 #!/usr/bin/env python3
-"""debug helper: print functions matching a regex in readable MIR text"""
-import sys, facts
-d = sys.argv[1]
-F = facts.Facts(d)
-for f in F.find(sys.argv[2]):
-    print(facts.dump(f, cleanup=len(sys.argv) > 3))
+"""debug helper: print functions matching a regex in readable MIR text (current tree)"""
+import sys, facts, framework
+F = facts.Facts(framework.ensure_facts("dev"))
+for f in F.find(sys.argv[1]):
+    print(facts.dump(f, cleanup=len(sys.argv) > 2))
     print()
